@@ -127,6 +127,10 @@ def type_nodes(doc):
     for n in mm.enums:
         seen[canon(ref(n))] = ref(n)
     for ok, on, path, t in mm.walk_types():
+        if ok == "alias" and on in ("LSPAny", "LSPObject", "LSPArray"):
+            # the plugin never uses the labels it computes inside these three aliases: generate_for_reference
+            # replaces them by True (any JSON is a valid LSPAny); only the reference nodes are judged
+            continue
         seen.setdefault(canon(t), t)
     return list(seen.values())
 
